@@ -4,10 +4,14 @@ import (
 	"bytes"
 	"crypto/aes"
 	"crypto/cipher"
+	"crypto/ed25519"
 	"crypto/hmac"
 	"crypto/sha256"
 	"crypto/x509"
+	"crypto/x509/pkix"
 	"fmt"
+	"math/big"
+	"sync"
 	"time"
 
 	tls "github.com/refraction-networking/utls"
@@ -20,12 +24,65 @@ func init() {
 	Register("C35", &Info{
 		Run:   runC35,
 		Quick: 7500, Thor: 1000000,
-		Rule: "a world = one server Config with a history of ticket operations: a real TLS 1.2 or 1.3 connection supplies genuine SessionState values (captured through Config.WrapSession), variants are derived by editing Extra/EarlyData; operations drawn per world: EncryptTicket/DecryptTicket round trip, single-bit flips at every region (IV, ciphertext, MAC), truncation/extension, explicit key sets and rotations through SetSessionTicketKeys (new key in front: old tickets still open; old key removed: no state), automatic key rotation under server clock jumps (1 h .. 30 d against the 7-day key lifetime), opening tickets with an Config.Clone() snapshots that must keep the key set they were taken with, independent AES-CTR + HMAC-SHA256 sealer keyed by TicketKeyFromBytes and sealing tickets independently for DecryptTicket, and finally a resumption through a forged ClientSessionState (drawn master secret patched into the state) (with or without the server's certificates in it) that must resume with the supplied version/suite and equal exporters on both sides, followed by an ordinary connection over the same session cache (and, when the supplied suite differs from the one sealed in the ticket, must not complete as a resumption under another suite); one world in six: a Config with the legacy SessionTicketKey field set, 1-3 tasks calling EncryptTicket concurrently with one SetSessionTicketKeys call under a scheduler that switches at every lock operation - afterwards the keys in force must be the installed ones; non-trivial = a ticket was decrypted or rejected after a mutation/rotation; distinct = (operation sequence, key history, clock jumps)",
+		Rule: "a world = one server Config with a history of ticket operations: a real TLS 1.2 or 1.3 connection supplies genuine SessionState values (captured through Config.WrapSession), variants are derived by editing Extra/EarlyData; operations drawn per world: EncryptTicket/DecryptTicket round trip, single-bit flips at every region (IV, ciphertext, MAC), truncation/extension, explicit key sets and rotations through SetSessionTicketKeys (new key in front: old tickets still open; old key removed: no state), automatic key rotation under server clock jumps (1 h .. 30 d against the 7-day key lifetime) and walks (2-14 steps of 7 h .. 3 d with the keys used after every step), a third of the worlds with a client certificate whose cross-signed intermediate gives the sealed state two verified chains, opening tickets with an Config.Clone() snapshots that must keep the key set they were taken with, independent AES-CTR + HMAC-SHA256 sealer keyed by TicketKeyFromBytes and sealing tickets independently for DecryptTicket, and finally a resumption through a forged ClientSessionState (drawn master secret patched into the state) (with or without the server's certificates in it) that must resume with the supplied version/suite and equal exporters on both sides, followed by an ordinary connection over the same session cache (and, when the supplied suite differs from the one sealed in the ticket, must not complete as a resumption under another suite); one world in six: a Config with the legacy SessionTicketKey field set, 1-3 tasks calling EncryptTicket concurrently with one SetSessionTicketKeys call under a scheduler that switches at every lock operation - afterwards the keys in force must be the installed ones; non-trivial = a ticket was decrypted or rejected after a mutation/rotation; distinct = (operation sequence, key history, clock jumps)",
 		Assumptions: []string{"the independent sealer follows the documented ticket format (16-byte IV, AES-128-CTR, HMAC-SHA256 over IV and ciphertext) with keys from TicketKeyFromBytes",
 			"automatic rotation: no claim between 6 and 8 days"},
 		Real: []string{"utls server Config ticket code, client session injection (MakeClientSessionState, SetSessionState) from /repo"},
 		Stub: []string{"transport, clocks (server Config.Time), crypto/rand, Config.Rand"},
 	})
+}
+
+// A client certificate whose issuing intermediate is cross-signed by two roots: a server that trusts
+// both roots and is shown both intermediate certificates verifies two chains that differ after the
+// leaf. Ed25519 throughout (deterministic signatures, keys from fixed seeds), so the bytes are the same in
+// every process.
+type xsignedFix struct {
+	cert tls.Certificate // leaf, intermediate-by-root-one, intermediate-by-root-two
+	cas  *x509.CertPool
+}
+
+var (
+	xsignedOnce sync.Once
+	xsigned     xsignedFix
+)
+
+func xsignedClient() *xsignedFix {
+	xsignedOnce.Do(func() {
+		key := func(b byte) ed25519.PrivateKey { return ed25519.NewKeyFromSeed(bytes.Repeat([]byte{b}, 32)) }
+		mk := func(serial int64, cn string, ca bool, pub ed25519.PublicKey, parent *x509.Certificate, signer ed25519.PrivateKey) *x509.Certificate {
+			t := &x509.Certificate{SerialNumber: big.NewInt(serial), Subject: pkix.Name{CommonName: cn},
+				NotBefore: BubbleEpoch.Add(-24 * time.Hour), NotAfter: BubbleEpoch.Add(40 * 365 * 24 * time.Hour),
+				BasicConstraintsValid: true, IsCA: ca, KeyUsage: x509.KeyUsageDigitalSignature, SubjectKeyId: []byte(cn)}
+			if ca {
+				t.KeyUsage |= x509.KeyUsageCertSign
+			} else {
+				t.ExtKeyUsage = []x509.ExtKeyUsage{x509.ExtKeyUsageClientAuth}
+			}
+			if parent == nil {
+				parent = t
+			}
+			der, err := x509.CreateCertificate(nil, t, parent, pub, signer)
+			if err != nil {
+				panic(err)
+			}
+			x, err := x509.ParseCertificate(der)
+			if err != nil {
+				panic(err)
+			}
+			return x
+		}
+		r1k, r2k, ik, lk := key(0x11), key(0x22), key(0x33), key(0x44)
+		r1 := mk(1, "verif root one", true, r1k.Public().(ed25519.PublicKey), nil, r1k)
+		r2 := mk(2, "verif root two", true, r2k.Public().(ed25519.PublicKey), nil, r2k)
+		i1 := mk(3, "verif cross-signed intermediate", true, ik.Public().(ed25519.PublicKey), r1, r1k)
+		i2 := mk(4, "verif cross-signed intermediate", true, ik.Public().(ed25519.PublicKey), r2, r2k)
+		leaf := mk(5, "verif client", false, lk.Public().(ed25519.PublicKey), i1, ik)
+		xsigned.cert = tls.Certificate{Certificate: [][]byte{leaf.Raw, i1.Raw, i2.Raw}, PrivateKey: lk, Leaf: leaf}
+		xsigned.cas = x509.NewCertPool()
+		xsigned.cas.AddCert(r1)
+		xsigned.cas.AddCert(r2)
+	})
+	return &xsigned
 }
 
 func indepOpen(k tls.TicketKey, ticket []byte) []byte {
@@ -153,6 +210,14 @@ func runC35(c *Ctx) {
 	}
 	cache := tls.NewLRUClientSessionCache(4)
 	ccfg := &tls.Config{ServerName: "example.test", RootCAs: Roots(), ClientSessionCache: cache, MaxVersion: ver}
+	// a third of the worlds: the seed connection authenticates the client with a certificate whose
+	// intermediate is cross-signed, so the sealed server-side state holds two verified chains
+	twoChains := ch.Bool(33, "client-cert-with-two-chains")
+	if twoChains {
+		fx := xsignedClient()
+		scfg.ClientAuth, scfg.ClientCAs = tls.VerifyClientCertIfGiven, fx.cas
+		ccfg.Certificates = []tls.Certificate{fx.cert}
+	}
 	o := RunConn(c, w, &ConnSpec{Name: "seed", ID: tls.HelloGolang, CCfg: ccfg, Peer: PeerUTLS, SCfg: scfg, Payload: [][]byte{[]byte("x")}})
 	if !o.CDone || len(states) == 0 {
 		c.Finish(w, true)
@@ -169,6 +234,26 @@ func runC35(c *Ctx) {
 	var ops []string
 	fail := func(class, format string, a ...any) {
 		c.Violate(class, "ops=%v: "+format, append([]any{ops}, a...)...)
+	}
+	if twoChains {
+		if len(cs0.VerifiedChains) != 2 {
+			c.Finish(w, true)
+			c.R.Harness = fmt.Sprintf("cross-signed client certificate: server verified %d chains, want 2", len(cs0.VerifiedChains))
+			return
+		}
+		c.Probe("state-with-two-verified-chains")
+	}
+	// the genuine state itself, as captured (not a re-parsed copy): sealed and opened, it must come
+	// back equal; and parsing its encoding must be the inverse of producing it
+	{
+		t, err := scfg.EncryptTicket(cs0, base)
+		if err != nil {
+			fail("encrypt-error", "genuine state: %v", err)
+		} else if d, derr := scfg.DecryptTicket(t, cs0); d == nil {
+			fail("round-trip-failed", "genuine state: DecryptTicket(EncryptTicket(state)) = nil, %v", derr)
+		} else if db, _ := d.Bytes(); !bytes.Equal(db, baseBytes) {
+			fail("round-trip-altered-state genuine two-chains="+fmt.Sprint(twoChains), "the state captured in WrapSession differs after EncryptTicket/DecryptTicket (%d vs %d bytes)", len(db), len(baseBytes))
+		}
 	}
 	// variant state
 	variant := func() *tls.SessionState {
@@ -324,6 +409,22 @@ func runC35(c *Ctx) {
 			ops = append(ops, fmt.Sprintf("retire(now=%v)", keyHist))
 			c.Fault("key-retire", 1)
 		case 5: // clock jump (automatic rotation)
+			if ch.Bool(35, "walk") {
+				// a server in steady use: the clock advances in steps of 7 h .. 3 d and the ticket keys
+				// are used after every step (so every rotation happens on time and finds the previous
+				// key still young)
+				n := ch.Range(2, 14, "walk-steps")
+				var total time.Duration
+				for k := 0; k < n; k++ {
+					st := []time.Duration{7 * time.Hour, 25 * time.Hour, 25 * time.Hour, 49 * time.Hour, 3 * 24 * time.Hour}[ch.Pick(5, "walk-step")]
+					clockOff += st
+					total += st
+					scfg.DecryptTicket([]byte("not a ticket"), cs0)
+				}
+				ops = append(ops, fmt.Sprintf("walk+%v/%d", total, n))
+				c.Fault("clock-walk", 1)
+				break
+			}
 			j := []time.Duration{time.Hour, 25 * time.Hour, 3 * 24 * time.Hour, 9 * 24 * time.Hour, 30 * 24 * time.Hour}[ch.Pick(5, "jump")]
 			clockOff += j
 			ops = append(ops, fmt.Sprintf("jump+%v", j))
